@@ -131,6 +131,13 @@ func modelEvalWith(r *Run, family string, bound int, replay func(*evalVector) (b
 					mu.Unlock()
 					return
 				}
+				if v.Err == "need" && family != "C14" {
+					// the case needs a byte-level codec (an environment function): only C14 supplies them
+					mu.Lock()
+					tags["needs_codec_skipped"]++
+					mu.Unlock()
+					return
+				}
 				agree, obs := replay(&v)
 				mu.Lock()
 				st.Replayed++
